@@ -695,8 +695,91 @@ def item_tls(repo):
             'def tlsShapeChecked : Bool := true\n')
 
 
+WIRE_W = [
+    (r'write_version_frame\(send_stream\.get_mut\(\), (request|response)\.version\(\)\)\.await\?', 'versionFrame'),
+    (r'let \(parts, body\) = (request|response)\.into_parts\(\)', 'splitParts'),
+    (r'let raw_header = RawRequestHeader::from_header\(parts\)', 'rawHeader'),
+    (r'let \(raw_header, _extensions\) = RawResponseHeader::from_header\(parts\)', 'rawHeaderDropExtensions'),
+    (r'let mut buf = BytesMut::new\(\)', 'newBuffer'),
+    (r'bincode::serialize_into\(\(&mut buf\)\.writer\(\), &raw_header\) \.expect\("serialization should not fail"\)', 'bincodeFixintHeader'),
+    (r'send_stream\.send\(buf\.freeze\(\)\)\.await\?', 'sendHeaderFrame'),
+    (r'send_stream\.send\(body\)\.await\?', 'sendBodyFrame'),
+    (r'Ok\(\(\)\)', 'returnOk'),
+]
+WIRE_R = [
+    (r'let version = read_version_frame\(recv_stream\.get_mut\(\)\)\.await\?', 'versionFrame'),
+    (r'let header_buf = recv_stream \.next\(\) \.await \.ok_or_else\(\|\| anyhow!\("unexpected EOF"\)\)\?\?', 'recvHeaderFrameOrEof'),
+    (r'let raw_header: RawRequestHeader = bincode::deserialize\(&header_buf\)\?', 'bincodeFixintHeader'),
+    (r'let raw_header: RawResponseHeader = bincode::deserialize\(&header_buf\)\?', 'bincodeFixintHeader'),
+    (r'let request_header = RequestHeader::from_raw\(raw_header, version\)', 'headerFromRaw'),
+    (r'let response_header = ResponseHeader::from_raw\(raw_header, version\)\?', 'headerFromRawChecked'),
+    (r'let body = recv_stream \.next\(\) \.await \.ok_or_else\(\|\| anyhow!\("unexpected EOF"\)\)\?\?', 'recvBodyFrameOrEof'),
+    (r'let request = Request::from_parts\(request_header, body\.freeze\(\)\)', 'assemble'),
+    (r'let response = Response::from_parts\(response_header, body\.freeze\(\)\)', 'assemble'),
+    (r'Ok\((request|response)\)', 'returnMessage'),
+]
+
+
+def item_wirefmt(repo):
+    """the framing of one message (C07, C15, C06): statement sequences of the four read/write functions,
+    shapes of the version frame, the codec configuration and the connection handshake"""
+    w = strip_comments(read(repo, 'crates/anemo/src/network/wire.rs'))
+    for marker in ['#[cfg(test)]', '#[cfg(bmwill_anemo_verif)]']:
+        cut = w.find(marker)
+        if cut > 0:
+            w = w[:cut]
+
+    def seq(fn, table):
+        body = block_after(w, r'async\s+fn\s+' + fn + r'\s*<')
+        out = []
+        for st in split_stmts(flat(body)):
+            for pat, name in table:
+                if re.fullmatch(pat, st):
+                    out.append(name)
+                    break
+            else:
+                raise ValueError(f'wirefmt: {fn}: unrecognised statement `{st[:110]}`')
+        return out
+    wreq, wresp, rreq, rresp = seq('write_request', WIRE_W), seq('write_response', WIRE_W), seq('read_request', WIRE_R), seq('read_response', WIRE_R)
+    codec = flat(block_after(w, r'fn\s+network_message_frame_codec\s*\('))
+    if codec != 'let mut builder = LengthDelimitedCodec::builder(); if let Some(max_frame_size) = config.max_frame_size() { builder.max_frame_length(max_frame_size); } builder.length_field_length(4).big_endian().new_codec()':
+        raise ValueError('wirefmt: network_message_frame_codec: ' + codec[:160])
+    rv = flat(block_after(w, r'async\s+fn\s+read_version_frame\s*<'))
+    if rv != 'let mut buf: [u8; 8] = [0; 8]; recv_stream.read_exact(&mut buf).await?; if &buf[0..=4] != ANEMO || buf[7] != 0 { bail!("Invalid Protocol Header"); } let version_be_bytes = [buf[5], buf[6]]; let version = u16::from_be_bytes(version_be_bytes); Version::new(version)':
+        raise ValueError('wirefmt: read_version_frame: ' + rv[:160])
+    wv = flat(block_after(w, r'async\s+fn\s+write_version_frame\s*<'))
+    if wv != 'let mut buf: [u8; 8] = [0; 8]; buf[0..=4].copy_from_slice(ANEMO); buf[5..=6].copy_from_slice(&version.to_u16().to_be_bytes()); send_stream.write_all(&buf).await?; Ok(())':
+        raise ValueError('wirefmt: write_version_frame: ' + wv[:160])
+    hs = flat(block_after(w, r'async\s+fn\s+handshake\s*\('))
+    if hs != 'match connection.origin() { crate::ConnectionOrigin::Inbound => { let mut send_stream = connection.open_uni().await?; write_version_frame(&mut send_stream, Version::V1).await?; send_stream.finish()?; send_stream.stopped().await?; } crate::ConnectionOrigin::Outbound => { let mut recv_stream = connection.accept_uni().await?; read_version_frame(&mut recv_stream).await?; } } Ok(connection)':
+        raise ValueError('wirefmt: handshake: ' + hs[:200])
+    # the header structs (field order is the wire order) and their conversions (extensions start empty, names
+    # and values are copied as they are)
+    rq = strip_comments(read(repo, 'crates/anemo/src/types/request.rs'))
+    rs = strip_comments(read(repo, 'crates/anemo/src/types/response.rs'))
+    ty = strip_comments(read(repo, 'crates/anemo/src/types/mod.rs'))
+    checks = [
+        (rq, r'#\[derive\(serde::Serialize, serde::Deserialize\)\] pub\(crate\) struct RawRequestHeader \{ pub route: String, pub headers: HeaderMap, \}', 'RawRequestHeader'),
+        (rq, r'impl RawRequestHeader \{ pub fn from_header\(header: RequestHeader\) -> Self \{ Self \{ route: header\.route, headers: header\.headers, \} \} \}', 'RawRequestHeader::from_header'),
+        (rq, r'pub\(crate\) fn from_raw\(raw_header: RawRequestHeader, version: Version\) -> Self \{ Self \{ route: raw_header\.route, version, headers: raw_header\.headers, extensions: Default::default\(\), \} \}', 'RequestHeader::from_raw'),
+        (rs, r'#\[derive\(serde::Serialize, serde::Deserialize\)\] pub\(crate\) struct RawResponseHeader \{ pub status: u16, pub headers: HeaderMap, \}', 'RawResponseHeader'),
+        (rs, r'impl RawResponseHeader \{ pub fn from_header\(header: ResponseHeader\) -> \(Self, Extensions\) \{ \( Self \{ status: header\.status\.to_u16\(\), headers: header\.headers, \}, header\.extensions, \) \} \}', 'RawResponseHeader::from_header'),
+        (rs, r'pub\(crate\) fn from_raw\(raw_header: RawResponseHeader, version: Version\) -> Result<Self> \{ Ok\(Self \{ status: StatusCode::new\(raw_header\.status\)\?, version, headers: raw_header\.headers, extensions: Default::default\(\), \}\) \}', 'ResponseHeader::from_raw'),
+        (ty, r'pub type HeaderMap = std::collections::HashMap<String, String>;', 'HeaderMap'),
+    ]
+    for src_, pat, nm in checks:
+        if not re.search(pat, flat(src_)):
+            raise ValueError('wirefmt: shape of ' + nm)
+    L = lambda xs: '[' + ', '.join('.' + x for x in xs) + ']'
+    return (f'def writeRequestGen : List WireStep := {L(wreq)}\n'
+            f'def writeResponseGen : List WireStep := {L(wresp)}\n'
+            f'def readRequestGen : List WireStep := {L(rreq)}\n'
+            f'def readResponseGen : List WireStep := {L(rresp)}\n'
+            'def wireShapeChecked : Bool := true\n')
+
+
 ITEMS = [('ANEMO', item_anemo), ('Version', item_version), ('StatusCode', item_status),
-         ('headers', item_headers), ('ConfigDefaults', item_config), ('tieBreak', item_tiebreak), ('codegen', item_codegen), ('admit', item_admit), ('life', item_life), ('registry', item_registry), ('tick', item_tick), ('rpcpath', item_rpcpath), ('tls', item_tls)]
+         ('headers', item_headers), ('ConfigDefaults', item_config), ('tieBreak', item_tiebreak), ('codegen', item_codegen), ('admit', item_admit), ('life', item_life), ('registry', item_registry), ('tick', item_tick), ('rpcpath', item_rpcpath), ('tls', item_tls), ('wirefmt', item_wirefmt)]
 
 HEADER = '''/- GENERATED by /verif/tools/gen.py from /repo's working tree on every run -- do not edit. -/
 import AnemoModel.Basic
@@ -711,6 +794,13 @@ inductive Affinity where
   | high
   | allowed
   | never
+  deriving DecidableEq, Repr, Inhabited
+
+/-- the steps of writing / reading one message, in source order -/
+inductive WireStep where
+  | versionFrame | splitParts | rawHeader | rawHeaderDropExtensions | newBuffer | bincodeFixintHeader
+  | sendHeaderFrame | sendBodyFrame | returnOk
+  | recvHeaderFrameOrEof | headerFromRaw | headerFromRawChecked | recvBodyFrameOrEof | assemble | returnMessage
   deriving DecidableEq, Repr, Inhabited
 
 /-- the steps of the certificate verifiers, in source order -/
